@@ -36,6 +36,13 @@ Verdict(ph) ==
     ELSE IF ph.avail = "True" THEN "open"
     ELSE "failing"
 
+\* Deviation of the code from the intended design, modelled as found: Reconcile keeps the NotFound of its lookup in
+\* `err` across the successful Create and returns it ("getting existing ObjectSetPhase: ... not found"), so the pass
+\* that creates a phase object always ends with an error and the ObjectSet is reconciled again (observation O9).
+\* The next pass finds the object and goes on; nothing is written twice.
+CreateAbortsPass == TRUE
+PassAborts(setPaused, ph) == CreateAbortsPass /\ RemoteOp(setPaused, ph) = "create"
+
 \* the verdict the pass acts on
 PassVerdict(setPaused, ph) == Verdict(AfterOp(setPaused, ph))
 =============================================================================
